@@ -107,6 +107,22 @@ def repeat_oracle(term, out):
         return
     out.stats.inc("programs_queried")
     out.outcomes.add(("answers", hash((base["unparse"][1], base["check_safety"][1])) & 0xFFFF))
+    # the same bytes met as a later member of a stacked file: same answers
+    try:
+        sp = list(fk.StackedPickle.load(b"N." + data))
+    except Exception:  # noqa: BLE001
+        sp = []
+    if len(sp) == 2:
+        out.stats.inc("stack_member_comparisons")
+        for q in ("check_safety", "unparse", "summaries", "dumps"):
+            r = safe_ask(sp[1], q)
+            if r[:2] != base[q]:
+                out.violate(PROP, f"C13|stack-member|{q}|{suspect(data)}",
+                            f"parsed as the second member of a stacked file, the answer to {q!r} differs from the answer for the same bytes "
+                            f"parsed alone: {_diff(base[q], r[:2])}",
+                            {"engine": "E1", "program": term.cfg.labels(term.seq) + ["STOP"], "bytes": data, "history": ["stack-member", q]},
+                            len(term.seq) * 10)
+                return
     seqs = [s for s in itertools.product(QUERIES, repeat=L)]
     fine = term.cfg.opts.get("fine")
     if fine == "summaries":
@@ -175,6 +191,9 @@ def macros():
         S("macro:eval-pop", ("GLOBAL", ("builtins", "eval")), sbu("1"), "TUPLE1", "REDUCE", "POP"),
         S("NONE", "NONE"),
         S("TUPLE2", "TUPLE2"),
+        # two modules below one top-level package, one in the standard library and one not
+        S("macro:xml-std-pop", ("GLOBAL", ("xml.etree.ElementTree", "Element")), "POP"),
+        S("macro:xml-nonstd-pop", ("GLOBAL", ("xml.vp_not_in_stdlib", "factory")), "POP"),
     ]
 
 
@@ -218,7 +237,18 @@ def _corpus_one(item):
     return out
 
 
-def child_main(depth, path, corpus_path=None):
+def ordered_programs():
+    """Programs answered one after the other in a single process, in this order or reversed: the answers for one pickle
+    must not depend on which other pickles the process has looked at before."""
+    def asm_syms(pr):
+        return b"".join(m.data for m in pr) + b"."
+
+    ms = macros()
+    progs = [[m] for m in ms] + [[a, b] for a in ms for b in ms if a is not b]
+    return [asm_syms(pr) for pr in progs]
+
+
+def child_main(depth, path, corpus_path=None, reverse=False):
     """Runs in a process with its own PYTHONHASHSEED: digest table of every terminal program."""
     cfg = e1.Config(PROP, sigma(), depth, [], [digest_oracle], split=1, want_states=False)
     total, _ = e1.run(cfg, None)
@@ -229,6 +259,14 @@ def child_main(depth, path, corpus_path=None):
     table.update(totalm.table)
     items = [(t, bytes.fromhex(h)) for t, h in json.load(open(corpus_path))] if corpus_path else []
     for tag, data in items:
+        o = e1.Out()
+        digest_oracle(e1.Term(_Cfg({}), (tag,), data), o)
+        table.update(o.table)
+    seq = ordered_programs()
+    if reverse:
+        items = items[::-1]
+        seq = seq[::-1]
+    for tag, data in [("ordered", d) for d in seq] + items:
         o = e1.Out()
         digest_oracle(e1.Term(_Cfg({}), (tag,), data), o)
         table.update(o.table)
@@ -289,7 +327,7 @@ def check(tier):
             env = dict(os.environ, PYTHONHASHSEED=str(s), VERIF_JOBS=str(max(2, ncpu() // 3)))
             procs.append((s, path, subprocess.Popen(
                 [sys.executable, "-W", "ignore", "-c",
-                 f"import sys; sys.setrecursionlimit(3000); from vp.props.c13 import child_main; child_main({3 if tier == 'quick' else 4}, {path!r}, {cpath!r})"],
+                 f"import sys; sys.setrecursionlimit(3000); from vp.props.c13 import child_main; child_main({3 if tier == 'quick' else 4}, {path!r}, {cpath!r}, {s != seeds[0]})"],
                 env=env, cwd=VERIF)))
         for s, path, pr in procs:
             rc = pr.wait()
@@ -310,7 +348,8 @@ def check(tier):
             if ref[hx] != dg:
                 data = bytes.fromhex(hx)
                 rep.violate(f"C13|hashseed|{suspect(data)}",
-                            f"answers for this program differ between PYTHONHASHSEED={seeds[0]} and {s}",
+                            f"answers for this program differ between a process with PYTHONHASHSEED={seeds[0]} and one with PYTHONHASHSEED={s} "
+                            f"that met the programs in the opposite order",
                             {"engine": "hashseed", "bytes": data, "seeds": [seeds[0], s]}, len(data))
     rep.assumptions += [
         "hash-seed independence is checked for the finite seed set listed in coverage, not for all seeds",
